@@ -123,8 +123,8 @@ def early_exit_guard_param(repo: Repo, g: Func, attr: str = 'isVisible') -> List
         return out
     ps = [p.arg for p in g.params()]
     for st in g.node.body:
-        if isinstance(st, ast.If) and st.body and isinstance(st.body[-1], (ast.Return, ast.Raise, ast.Continue)) \
-                and not st.orelse:
+        if isinstance(st, ast.If) and st.body and isinstance(st.body[-1], (ast.Return, ast.Raise, ast.Continue)):
+            # (an `else:` holding the rest of the function is the same guard: its body is only reached when the test fails)
             for p in ps:
                 if implies_attr(st.test, False, p, attr, repo, g) and p not in out:
                     out.append(p)
